@@ -35,6 +35,9 @@ static lp_variable_order_t* g_ord;
 static lp_polynomial_context_t* g_ctx;
 static lp_variable_t g_x, g_y;
 static lp_polynomial_t* g_pool[MAXP];
+static lp_polynomial_t* g_pool2[MAXP];   /* the same polynomials built in g_ctx2 */
+static lp_polynomial_context_t* g_ctx2;   /* a second context OBJECT equal to g_ctx (same ring, db, order) */
+static int g_two = 0;                     /* hs2 / hp2: keys come from the second context */
 static long g_key[MAXP];
 static int g_P;
 
@@ -90,8 +93,10 @@ static void ctx_open_ring(long m) {
   lp_variable_order_push(g_ord, g_y);
   lp_variable_order_push(g_ord, g_x);
   g_ctx = lp_polynomial_context_new(g_K ? g_K : lp_Z, g_db, g_ord);
+  g_ctx2 = lp_polynomial_context_new(g_K ? g_K : lp_Z, g_db, g_ord);
 }
 static void ctx_close(void) {
+  lp_polynomial_context_detach(g_ctx2);
   lp_polynomial_context_detach(g_ctx);
   lp_variable_order_detach(g_ord);
   lp_variable_db_detach(g_db);
@@ -101,8 +106,7 @@ static void ctx_close(void) {
 static long live_bytes(void) { return (long)__sanitizer_get_current_allocated_bytes() - (long)g_cap; }
 
 /* a*x^i*y^j + b  (a, b taken into the ring of the context) */
-static lp_polynomial_t* mkpoly(long a, unsigned i, unsigned j, long b) {
-  lp_int_ring_t* K = g_K ? g_K : lp_Z;
+static lp_polynomial_t* mkpoly_in(const lp_polynomial_context_t* g_ctx, lp_int_ring_t* K, long a, unsigned i, unsigned j, long b) {
   lp_integer_t c;
   lp_integer_construct_from_int(K, &c, a);
   lp_polynomial_t* p;
@@ -128,6 +132,7 @@ static lp_polynomial_t* mkpoly(long a, unsigned i, unsigned j, long b) {
   lp_integer_destruct(&c);
   return p;
 }
+static lp_polynomial_t* mkpoly(long a, unsigned i, unsigned j, long b) { return mkpoly_in(g_ctx, g_K ? g_K : lp_Z, a, i, j, b); }
 
 /* reads P and the pool starting at token 1; returns the index of the first op token */
 static int read_pool(int with_key) {
@@ -135,12 +140,16 @@ static int read_pool(int with_key) {
   int t = 2;
   for (int k = 0; k < g_P; ++k) {
     g_pool[k] = mkpoly(atol(vtok[t]), (unsigned)atol(vtok[t+1]), (unsigned)atol(vtok[t+2]), atol(vtok[t+3]));
+    g_pool2[k] = mkpoly_in(g_ctx2, g_K ? g_K : lp_Z, atol(vtok[t]), (unsigned)atol(vtok[t+1]), (unsigned)atol(vtok[t+2]), atol(vtok[t+3]));
     t += 4;
     if (with_key) g_key[k] = atol(vtok[t++]);
   }
   return t;
 }
-static void free_pool(void) { for (int k = 0; k < g_P; ++k) lp_polynomial_delete(g_pool[k]); g_P = 0; }
+static void free_pool(void) { for (int k = 0; k < g_P; ++k) { lp_polynomial_delete(g_pool[k]); lp_polynomial_delete(g_pool2[k]); } g_P = 0; }
+/* key polynomial k: from the second context in hs2/hp2 cases; source k of step t: alternating */
+#define KEY(k) (g_two ? g_pool2[k] : g_pool[k])
+#define SRC(k, t) ((g_two && ((t) & 1)) ? g_pool2[k] : g_pool[k])
 
 static int find_id(const lp_polynomial_t* p) {
   for (int k = 0; k < g_P; ++k) if (lp_polynomial_cmp(p, g_pool[k]) == 0) return k;
@@ -203,10 +212,10 @@ static void run_hs(void) {
     const char* op = vtok[t];
     oprintf(" ;");
     switch (op[0]) {
-    case 'i': oprintf(" %d", lp_polynomial_hash_set_insert(set, g_pool[atoi(op + 1)])); break;
+    case 'i': oprintf(" %d", lp_polynomial_hash_set_insert(set, SRC(atoi(op + 1), t))); break;
     case 'm': {
       int k = atoi(op + 1);
-      lp_polynomial_t* tmp = lp_polynomial_new_copy(g_pool[k]);
+      lp_polynomial_t* tmp = lp_polynomial_new_copy(SRC(k, t));
       int r = lp_polynomial_hash_set_insert_move(set, tmp);
       oprintf(" %d%c", r, src_state(tmp, k));
       mutate(tmp);                       /* the set must not share anything with the source */
@@ -220,11 +229,11 @@ static void run_hs(void) {
       lp_polynomial_vector_delete(v);
       break;
     }
-    case 'r': oprintf(" %d", lp_polynomial_hash_set_remove(set, g_pool[atoi(op + 1)])); break;
+    case 'r': oprintf(" %d", lp_polynomial_hash_set_remove(set, SRC(atoi(op + 1), t + 1))); break;
     case 'x': {
       int n = parse_ids(op + 1, ids);
       lp_polynomial_hash_set_t* other = lp_polynomial_hash_set_new();
-      for (int q = 0; q < n; ++q) lp_polynomial_hash_set_insert(other, g_pool[ids[q]]);
+      for (int q = 0; q < n; ++q) lp_polynomial_hash_set_insert(other, KEY(ids[q]));
       lp_polynomial_hash_set_intersect(set, other);
       lp_polynomial_hash_set_delete(other);
       oprintf(" -");
@@ -252,7 +261,7 @@ static void run_hs(void) {
     }
     oprintf(" %zu ", lp_polynomial_hash_set_size(set));
     if (closed) oprintf("closed");
-    else for (int k = 0; k < g_P; ++k) oprintf("%d", lp_polynomial_hash_set_contains(set, g_pool[k]));
+    else for (int k = 0; k < g_P; ++k) oprintf("%d", lp_polynomial_hash_set_contains(set, KEY(k)));
   }
   lp_polynomial_hash_set_delete(set);
   free_pool();
@@ -287,7 +296,7 @@ static void run_hp(void) {
     switch (op[0]) {
     case 'p': {
       int k = atoi(op + 1);
-      lp_polynomial_t* tmp = lp_polynomial_new_copy(g_pool[k]);
+      lp_polynomial_t* tmp = lp_polynomial_new_copy(SRC(k, t));
       lp_polynomial_heap_push(heap, tmp);
       mutate(tmp);                       /* the heap holds a copy */
       lp_polynomial_delete(tmp);
@@ -321,7 +330,7 @@ static void run_hp(void) {
       if (p) oprintf(" %d", find_id(p)); else oprintf(" N");
       break;
     }
-    case 'r': oprintf(" %d", lp_polynomial_heap_remove(heap, g_pool[atoi(op + 1)])); break;
+    case 'r': oprintf(" %d", lp_polynomial_heap_remove(heap, KEY(atoi(op + 1)))); break;
     case 't': {                          /* remove the top, passing the heap's own pointer */
       const lp_polynomial_t* p = lp_polynomial_heap_peek(heap);
       if (p) { int id = find_id(p); oprintf(" %d:%d", id, lp_polynomial_heap_remove(heap, p)); } else oprintf(" N");
@@ -547,6 +556,84 @@ static void run_hc(void) {
   free_pool();
 }
 
+/* ------------------------------------------------------------------------------------------ two vectors, two contexts
+ * vs M P (a i j b)*P ops...   vector 1 is created over context A = Z[x,y], vector 2 over context B = Z_M[x,y]
+ * (M > 0) or over a second context object equal to A (M = 0).  a<k>/b<k> push pool polynomial k (built in A / in B)
+ * into the vector that currently BELONGS to that context (lp_polynomial_vector_get_context), A<k>/B<k> by move,
+ * w = lp_polynomial_vector_swap(v1, v2), t1/t2 reset.  After each op, for both handles: the context it reports
+ * (A/B/?), size, and for every index the pool index of at(i) looked up in the pool of the reported context. */
+static void run_vs(void) {
+  long M = atol(vtok[1]);
+  for (int k = 2; k < vntok; ++k) vtok[k - 1] = vtok[k];
+  --vntok;
+  int t = read_pool(0);
+  lp_int_ring_t* KB = NULL;
+  lp_polynomial_context_t* ctxB;
+  lp_polynomial_t* poolB[MAXP];
+  if (M > 0) {
+    lp_integer_t mm; lp_integer_construct_from_int(lp_Z, &mm, M);
+    KB = lp_int_ring_create(&mm, 1);
+    lp_integer_destruct(&mm);
+    ctxB = lp_polynomial_context_new(KB, g_db, g_ord);
+  } else { ctxB = g_ctx2; lp_polynomial_context_attach(ctxB); }
+  for (int k = 0; k < g_P; ++k) {
+    int b = 2 + 4 * k;
+    poolB[k] = mkpoly_in(ctxB, KB ? KB : lp_Z, atol(vtok[b]), (unsigned)atol(vtok[b+1]), (unsigned)atol(vtok[b+2]), atol(vtok[b+3]));
+  }
+  /* canonical index of every pool-B polynomial (reduction mod M can identify different specifications) */
+  oprintf("W");
+  for (int k = 0; k < g_P; ++k) {
+    int c = k;
+    for (int q = 0; q < k; ++q) if (lp_polynomial_cmp(poolB[q], poolB[k]) == 0) { c = q; break; }
+    oprintf(" %d", c);
+  }
+  lp_polynomial_vector_t* v[2];
+  v[0] = lp_polynomial_vector_new(g_ctx);
+  v[1] = lp_polynomial_vector_new(ctxB);
+  for (; t < vntok; ++t) {
+    const char* op = vtok[t];
+    oprintf(" ;");
+    int k = atoi(op + 1);
+    int isA = (op[0] == 'a' || op[0] == 'A');
+    if (op[0] == 'a' || op[0] == 'b' || op[0] == 'A' || op[0] == 'B') {
+      const lp_polynomial_context_t* want = isA ? g_ctx : ctxB;
+      lp_polynomial_vector_t* dst = NULL;
+      for (int q = 0; q < 2; ++q) if (lp_polynomial_vector_get_context(v[q]) == want) dst = v[q];
+      if (!dst) oprintf(" nohome");
+      else {
+        lp_polynomial_t* tmp = lp_polynomial_new_copy(isA ? g_pool[k] : poolB[k]);
+        if (op[0] == 'a' || op[0] == 'b') { lp_polynomial_vector_push_back(dst, tmp); oprintf(" -"); }
+        else { lp_polynomial_vector_push_back_move(dst, tmp); oprintf(" %c", lp_polynomial_is_zero(tmp) ? 'z' : '?'); }
+        lp_polynomial_delete(tmp);
+      }
+    }
+    else if (op[0] == 'w') { lp_polynomial_vector_swap(v[0], v[1]); oprintf(" -"); }
+    else if (op[0] == 't') { lp_polynomial_vector_reset(v[(k == 2) ? 1 : 0]); oprintf(" -"); }
+    else oprintf(" ?");
+    for (int q = 0; q < 2; ++q) {
+      const lp_polynomial_context_t* c = lp_polynomial_vector_get_context(v[q]);
+      char tag = c == g_ctx ? 'A' : (c == ctxB ? 'B' : '?');
+      size_t n = lp_polynomial_vector_size(v[q]);
+      oprintf(" %c %zu a:", tag, n);
+      for (size_t i = 0; i < n; ++i) {
+        lp_polynomial_t* p = lp_polynomial_vector_at(v[q], i);
+        int id = -1;
+        lp_polynomial_t** pool = tag == 'B' ? poolB : g_pool;
+        if (tag != '?' && lp_polynomial_context_equal(lp_polynomial_get_context(p), c) && lp_polynomial_get_context(p) == c)
+          for (int w = 0; w < g_P; ++w) if (lp_polynomial_cmp(p, pool[w]) == 0) { id = w; break; }
+        oprintf("%s%d", i ? "." : "", id);
+        lp_polynomial_delete(p);
+      }
+    }
+  }
+  lp_polynomial_vector_delete(v[0]);
+  lp_polynomial_vector_delete(v[1]);
+  for (int k = 0; k < g_P; ++k) lp_polynomial_delete(poolB[k]);
+  lp_polynomial_context_detach(ctxB);
+  if (KB) lp_int_ring_detach(KB);
+  free_pool();
+}
+
 int main(void) {
   struct sigaction sa;
   memset(&sa, 0, sizeof sa);
@@ -577,8 +664,9 @@ int main(void) {
         lp_polynomial_delete(p);
       }
     }
-    else if (is_op("hs")) run_hs();
-    else if (is_op("hp")) run_hp();
+    else if (is_op("hs") || is_op("hs2")) { g_two = is_op("hs2"); run_hs(); }
+    else if (is_op("hp") || is_op("hp2")) { g_two = is_op("hp2"); run_hp(); }
+    else if (is_op("vs")) run_vs();
     else if (is_op("vc")) run_vc();
     else if (is_op("hc")) run_hc();
     else oprintf("UNKNOWN-OP");
